@@ -1,6 +1,7 @@
 import RockitModel.Proofs.Shooting
 import RockitModel.Model.Transcribe
 import RockitModel.Proofs.RKTie
+import RockitModel.Generated.Clone
 /-!
 # C01 — shooting transcription encodes exactly the chosen integration scheme
 
@@ -121,5 +122,10 @@ theorem source_rk4_is_model_step (f : V → K → V × Q) (x : V) (t0 DT DTc : K
   (RKTie.rk4_source_is_model f x t0 DT DTc).1
 
 end source_tie
+
+/-- DT and DT_control seen by the model of a stage that is an INSTANCE of a template are the instance's own: the placeholder substitution of
+`Stage.clone` (regenerated from the source on every run) maps `DT` to `DT` and `DT_control` to `DT_control` -/
+theorem instance_steps_are_its_own :
+    (Rockit.Generated.cloneTimeSymbols.filter (fun p => p.1 == "DT" || p.1 == "DT_control")) = [("DT", "DT"), ("DT_control", "DT_control")] := by decide
 
 end Rockit.C01
